@@ -70,6 +70,17 @@ def programs(rng, tier):
         body = ["%s(%s)\n" % (r_ % last, a) for r_ in recvs for a in (rargs if tier == "thorough" or last == "chmod" else rng.sample(rargs, 4))]
         for i in range(0, len(body), 6):
             out.append({"src": IMPORTS + "".join(body[i:i + 6]), "include": None, "config": None})
+    # callees that are not names or attribute chains (conditional, boolean, lambda, call result, subscript, walrus, await),
+    # given the arguments checks look at from the *argument's* side: strings being built (SQL or not), literals, shell=True
+    callees = ["(zz_a if zz_c else zz_b)", "(zz_a or zz_b)", "(lambda zz_q: zz_q)", "zz_f()", "zz_d['k']", "(zz_w := zz_f)", "zz_m.n()[0]",
+               "(zz_log.debug if zz_v else zz_log.info)", "(not zz_f)", "[zz_f][0]", "{'k': zz_f}['k']"]
+    cargs = ["'select a from t where b=%s' % zz_x", "'select a from t where b=' + zz_x", "'select {} from t'.format(zz_x)",
+             "f'select a from t where b={zz_x}'", "'delete from t where a in (' + zz_x + ')'", "'/tmp/zz_file'", "password='hunter2'",
+             "zz_c, shell=True", "'0.0.0.0'", "'select a from t'.replace('a', zz_x)"]
+    for ce in callees:
+        body = ["%s(%s)\n" % (ce, a) for a in (cargs if tier == "thorough" else rng.sample(cargs, 5))]
+        body.append("async def zz_aw():\n    (await zz_h)(%s)\n" % cargs[0])
+        out.append({"src": IMPORTS + "".join(body), "include": None, "config": None, "keep": True})
     for s in STMTS:
         out.append({"src": IMPORTS + s, "include": None, "config": None})
     # the same material under selections that leave some node type of the built-in blacklist check without a rule, keep
